@@ -170,7 +170,28 @@ def build_harness():
                      cwd=h, env=GOENV)
         if rc == 0:
             os.replace(os.path.join(BUILD, "harness.new"), os.path.join(BUILD, "harness"))
+        # optional extra builds of the same harness with more build tags, requested by a property through
+        # "harness_variants": [{"name": "faketime", "tags": "verif faketime"}] in lib/props.d/<ID>.json;
+        # the binary is build/harness.<name> (started by that property's Run as a child process)
+        for name, tags in sorted(harness_variants().items()):
+            if rc != 0:
+                break
+            tmp = os.path.join(BUILD, "harness.%s.new" % name)
+            rc, out = sh(["timeout", "1800", "go", "build", "-tags", tags, "-o", tmp, "."], cwd=h, env=GOENV)
+            if rc == 0:
+                os.replace(tmp, os.path.join(BUILD, "harness.%s" % name))
     return rc, out
+
+
+def harness_variants():
+    vs = {}
+    for f in sorted(glob.glob(os.path.join(VERIF, "lib", "props.d", "C*.json"))):
+        try:
+            for v in json.load(open(f)).get("harness_variants", []):
+                vs[v["name"]] = v["tags"]
+        except (ValueError, KeyError, TypeError):
+            pass
+    return vs
 
 
 def bytes_lit(s):
